@@ -77,4 +77,8 @@ TEXTS["C20"] = {"engine": "attack", "design_ref": "§4 C20", "technique": "deter
     "level_text": "exploration: for every (method, url, status) the exported byte counters, histogram sample count/sum/cumulative buckets and the per-message failure counter equal direct sums over the observed results; every intermediate scrape is internally consistent. One genuine defect (failure counter never incremented) found and repaired",
     "level_note": _ATK_NOTE}
 
+TEXTS["C18"] = {"engine": "attack", "design_ref": "§4 C18", "technique": "deterministic scheduling of concurrent dial workers over an in-memory DNS server and a recording dial function, breakpoints inside the DNSCaching/ConnectTo closures, fake time for cache refreshes; race build",
+    "level_text": "exploration: every attempt goes to a currently resolved or mapped address, at most one per IP family and one per family present, all resolved addresses keep being used over 200 x |set| dials (the cached set never shrinks), mapped dials rotate evenly, unmapped addresses pass through, no data race. Three genuine defects found and repaired",
+    "level_note": _ATK_NOTE}
+
 NOT_APPLICABLE = {}
